@@ -19,6 +19,7 @@ type calleeInfo struct {
 	recvType types.Type  // static receiver type
 	typeArgs map[string]types.Type
 	fvalue   ast.Expr // function-valued expression (callbacks)
+	recvPath []int   // embedded-field path to the real receiver of a promoted method
 }
 
 func namedOf(t types.Type) *types.Named {
@@ -79,6 +80,9 @@ func (vc *VC) resolveCallee(x *ast.CallExpr) *calleeInfo {
 				ci.fn = sel.Obj().(*types.Func)
 				ci.recv = f.X
 				ci.recvType = sel.Recv()
+				if idx := sel.Index(); len(idx) > 1 {
+					ci.recvPath = idx[:len(idx)-1]
+				}
 				if n := namedOf(sel.Recv()); n != nil {
 					typeArgMap(n, ci.typeArgs)
 					pkg := ""
@@ -158,6 +162,9 @@ func (vc *VC) evalCall(st *State, x *ast.CallExpr) []Term {
 	var recv *Term
 	if ci.recv != nil {
 		r := vc.eval(st, ci.recv)
+		if len(ci.recvPath) > 0 {
+			r = vc.selectPath(st, r, ci.recvType, ci.recvPath, x)
+		}
 		// auto address / deref for method receivers
 		if ci.fn != nil {
 			msig := ci.fn.Type().(*types.Signature)
@@ -218,7 +225,7 @@ func (vc *VC) evalArgs(st *State, x *ast.CallExpr, sig *types.Signature) []Term 
 			// pack the remaining arguments into a slice
 			st0 := sig.Params().At(np - 1).Type().(*types.Slice)
 			ss := vc.U.sortOf(st0)
-			arr := fmt.Sprintf("((as const (Array Int %s)) %s)", ss.Elem.Name, vc.U.zero(ss.Elem))
+			arr := vc.U.zeroArray(ss.Elem)
 			n := 0
 			for _, rest := range x.Args[i:] {
 				v := vc.convertTo(vc.eval(st, rest), st0.Elem())
@@ -253,6 +260,7 @@ func (vc *VC) freshResults(st *State, sig *types.Signature, prefix string) []Ter
 func (vc *VC) callUncontracted(st *State, x *ast.CallExpr, ci *calleeInfo, sig *types.Signature, recv *Term, args []Term) []Term {
 	vc.uncontracted[ci.key] = true
 	vc.havocAllHeaps(st)
+	vc.havocGhostVars(st)
 	return vc.freshResults(st, sig, "r_"+ci.fn.Name())
 }
 
@@ -266,6 +274,7 @@ func (vc *VC) callFuncValue(st *State, x *ast.CallExpr, ci *calleeInfo, sig *typ
 	}
 	vc.uncontracted["<funcvalue> "+name] = true
 	vc.havocAllHeaps(st)
+	vc.havocGhostVars(st)
 	return vc.freshResults(st, sig, "r_"+smtName(name))
 }
 
@@ -295,6 +304,21 @@ func (vc *VC) callByContract(st *State, x *ast.CallExpr, fc *FuncContract, ci *c
 	vc.counters["call"] = callOrd + 1
 	if len(fc.Callbacks) > 0 {
 		vc.refineCallbacks(st, x, fc, ci, recv, args, callOrd)
+	}
+	if vc.contract != nil {
+		for _, cs := range vc.contract.Callsites {
+			if fc.Key == cs.Callee || strings.HasSuffix(fc.Key, "/"+cs.Callee) || strings.HasSuffix(fc.Key, "."+cs.Callee) {
+				own := vc.newSpecCtx(vc.contract, st, vc.entry)
+				vc.bindOwnParams(own)
+				for i, a := range args {
+					own.vars[fmt.Sprintf("arg%d", i)] = a
+				}
+				for k, r := range cs.Requires {
+					t := own.tr(r.Expr)
+					vc.assertNamed(st, fmt.Sprintf("callsite[%d:%s,%s]", callOrd, cs.Callee, clauseID(r, k)), "callsite", t.S, x.Pos(), "at every call of "+cs.Callee+": "+r.Text)
+				}
+			}
+		}
 	}
 	for k, r := range fc.Requires {
 		t := ctx.tr(r.Expr)
@@ -344,6 +368,23 @@ func (vc *VC) callByContract(st *State, x *ast.CallExpr, fc *FuncContract, ci *c
 	for _, e := range fc.Ensures {
 		t := ctx.tr(e.Expr)
 		vc.assume(st, t.S)
+	}
+	if vc.contract != nil {
+		for _, n := range vc.contract.Track {
+			if strings.HasSuffix(fc.Key, "."+n) {
+				nv := vc.callbackVar("ncalls", n)
+				cur := vc.readVar(st, nv)
+				st.vars[nv] = Term{"(+ " + cur.S + " 1)", sortInt}
+				for i := 0; i < sig.Results().Len(); i++ {
+					if types.TypeString(sig.Results().At(i).Type(), nil) == "error" {
+						st.vars[vc.callbackVar("lasterr", n)] = results[i]
+					}
+				}
+			}
+		}
+	}
+	if fc.NoReturn {
+		st.dead = true
 	}
 	return results
 }
@@ -512,7 +553,7 @@ func (vc *VC) evalBuiltin(st *State, x *ast.CallExpr, name string) []Term {
 				c := vc.eval(st, x.Args[2])
 				vc.assert(st, "panic", "(>= "+c.S+" "+n.S+")", x.Pos(), "make: cap < len")
 			}
-			return []Term{{fmt.Sprintf("(mk_%s ((as const (Array Int %s)) %s) %s)", s.Name, s.Elem.Name, vc.U.zero(s.Elem), n.S), s}}
+			return []Term{{fmt.Sprintf("(mk_%s %s %s)", s.Name, vc.U.zeroArray(s.Elem), n.S), s}}
 		case KMap:
 			ref := vc.newRef(st)
 			dn, ds, _, _ := mapHeapNames(s)
@@ -622,6 +663,7 @@ func (vc *VC) callCallback(st *State, x *ast.CallExpr, cb *CallbackSpec, sig *ty
 	old := st.clone()
 	if !cb.Frameless {
 		vc.havocAllHeaps(st)
+		vc.havocGhostVars(st)
 	}
 	// the abstract callback invariant is owned by the callbacks
 	cv := vc.cbinvVar()
@@ -637,7 +679,7 @@ func (vc *VC) callCallback(st *State, x *ast.CallExpr, cb *CallbackSpec, sig *ty
 		}
 	}
 	if sig.Results().Len() > 1 {
-		st.vars[vc.callbackVar("lastres", cb.Name)] = Term{results[0].S, sortAny}
+		st.vars[vc.callbackVar("lastres", cb.Name)] = vc.toAny(results[0])
 	}
 	ctx.cur, ctx.old = st, old
 	for i, r := range results {
